@@ -4,6 +4,7 @@
 package tx
 
 import (
+	"encoding/json"
 	"fmt"
 	"os"
 	"sort"
@@ -23,8 +24,40 @@ type Loaded struct {
 	Funcs map[*ssa.Function]bool
 }
 
+// OverlayFile, if set, names a `go build -overlay` style JSON file ({"Replace": {path: replacement}});
+// the translators then read the replaced sources (used for mutation experiments only).
+var OverlayFile = os.Getenv("VERIF_OVERLAY")
+
+func loadOverlay() (map[string][]byte, error) {
+	if OverlayFile == "" {
+		return nil, nil
+	}
+	data, err := os.ReadFile(OverlayFile)
+	if err != nil {
+		return nil, err
+	}
+	var ov struct{ Replace map[string]string }
+	if err := json.Unmarshal(data, &ov); err != nil {
+		return nil, err
+	}
+	out := map[string][]byte{}
+	for p, q := range ov.Replace {
+		b, err := os.ReadFile(q)
+		if err != nil {
+			return nil, err
+		}
+		out[p] = b
+	}
+	return out, nil
+}
+
 func Load(dir string, patterns ...string) (*Loaded, error) {
+	overlay, err := loadOverlay()
+	if err != nil {
+		return nil, err
+	}
 	cfg := &packages.Config{
+		Overlay: overlay,
 		Mode: packages.NeedName | packages.NeedFiles | packages.NeedCompiledGoFiles | packages.NeedImports |
 			packages.NeedDeps | packages.NeedTypes | packages.NeedSyntax | packages.NeedTypesInfo |
 			packages.NeedTypesSizes | packages.NeedModule,
